@@ -41,16 +41,30 @@ Theorem c14_single_failure_reported : forall variant W n k w0, (1 <= n)%nat -> (
 Proof. exact pool_single_failure. Qed.
 Print Assumptions c14_single_failure_reported.
 
-(* killed / exiting non-zero / raising workers have a non-zero exit code *)
+(* the exit code multiprocessing.Process.exitcode reports for each failure mode (Model/Pool.v
+   exit_code_of; the tie forks real workers and compares): a raising worker 1, a killed worker
+   minus the signal number, a worker that calls os._exit(k) the low 8 bits of k.  So killed and
+   raising workers always have a non-zero code; an exiting worker has one iff k is not a multiple
+   of 256 -- in particular for every k in 1..255, where the code is k itself *)
 Theorem c14_abnormal_codes : forall m,
   match m with
   | NoFail => exit_code_of m = 0%Z
   | Raises => exit_code_of m <> 0%Z
-  | Exits k => (k <> 0%Z -> exit_code_of m <> 0%Z)
+  | Exits k => (0 <= exit_code_of m < 256)%Z /\
+               (k mod 256 <> 0 -> exit_code_of m <> 0)%Z /\
+               (0 < k < 256 -> exit_code_of m = k /\ exit_code_of m <> 0)%Z
   | Killed s => ((0 < s)%Z -> (exit_code_of m < 0)%Z)
   end.
 Proof. exact exit_code_nonzero. Qed.
 Print Assumptions c14_abnormal_codes.
+
+(* os._exit(256) cannot be told from a normal exit by ANY parent: the kernel hands out the low 8
+   bits of the status.  "Exiting non-zero" in the property means a non-zero exit STATUS *)
+Theorem c14_exit_256_refuted :
+  exit_code_of (Exits 256) = 0%Z /\ exit_code_of (Exits (-1)) = 255%Z /\
+  exit_code_of (Exits 3) = 3%Z /\ exit_code_of (Killed 9) = (-9)%Z /\ exit_code_of Raises = 1%Z.
+Proof. exact exit_256_is_zero. Qed.
+Print Assumptions c14_exit_256_refuted.
 
 (* mapping: a failing worker of the assignment pool (list inspector), on every schedule and
    for every configuration of run_mapping, makes the assignment step raise; then the effect
@@ -90,6 +104,24 @@ Theorem c14_any_inner_failure : forall c fail,
 Proof. exact inner_raised_checked. Qed.
 Print Assumptions c14_any_inner_failure.
 
+(* "no result records" includes the query file: a failing worker of the assignment pool (every
+   schedule, every configuration) means run_mapping never reaches the step that appends the
+   mapping to the query file's obsm (AppendObsm, tag 8), nor the summary (9), the CSV (7) or
+   the success message (11) *)
+Theorem c14_failed_run_leaves_query_untouched : forall (c : cfg) (W : world) (n k : nat),
+  (1 <= n)%nat -> (exists w, (w < k)%nat /\ code W w <> 0%Z) ->
+  let tr := fst (run_mapping c (assign_fail (stage_result false W n k))) in
+  has_eff 8 tr = false /\ has_eff 9 tr = false /\ has_eff 7 tr = false /\ has_eff 11 tr = false.
+Proof. exact failed_run_leaves_query_untouched. Qed.
+Print Assumptions c14_failed_run_leaves_query_untouched.
+
+(* the same for a failure at any point up to and including the assignment *)
+Theorem c14_early_failure_no_obsm : forall c fail,
+  (fail = Some PCopy \/ fail = Some PMarkerCache \/ fail = Some PAssign) ->
+  has_eff 8 (fst (run_mapping c fail)) = false /\ has_eff 9 (fst (run_mapping c fail)) = false.
+Proof. exact early_failure_no_obsm. Qed.
+Print Assumptions c14_early_failure_no_obsm.
+
 (* the result buffer directory (named result_buffer_XXXXXXXX) is removed on EVERY path of run_mapping:
    for every configuration and wherever the run fails (or does not), the trace holds
    MkResultBuf and, later, CleanResultBuf; after a failure the removal comes after the
@@ -112,7 +144,15 @@ Theorem c14_result_buffer_cleaned : forall c fail, buffer_cleaned c fail = true.
 Proof. exact buffer_cleaned_checked. Qed.
 Print Assumptions c14_result_buffer_cleaned.
 
-(* the other stages (and the assignment stage itself): for each of the six stage
+(* the other stages (and the assignment stage itself).  GIVEN THE TRANSCRIPTION of the six stages
+   in Model/Pool.v (stats_stage ... mapping_stage: which effects come before each pool, after the
+   last clean drain, in the `finally`, after it -- written by hand from the six functions, tied to
+   the real stages only by the fault-injection runs of the harness, which compare the effects
+   observed on disk with run_stage_desc_c): SComplete occurs in none of the pre-pool or `finally`
+   lists, so this theorem is, as far as the stage descriptions go, a check of that transcription;
+   what is PROVED is the pool part -- a failing worker in any phase, under any schedule, bound and
+   inspector, makes that pool's verdict a raise, and a completed stage means every pool drained
+   with all codes 0.  For each of the six stage
    descriptions, whatever the worlds of its pools, a failing worker in ANY phase means the
    stage does not complete and the completing effect (taxonomy_tree dataset / move into
    place / data-indices-indptr / return of the result) does not happen; a completed stage
@@ -149,8 +189,10 @@ Print Assumptions c14_selection_scheduler_partial.
      iteration of `while len(started_parents) < len(parent_list)` either starts a parent or --
      when no parent can be chosen -- finds a behemoth in process_dict (pool invariant) and
      polls until a worker is popped, and every inner poll loop ends within max(dur)+1 polls;
-   - on Ok EVERY parent was started and completed (started and completed are permutations of
-     the parent list), process_dict is empty and every parent with leaf pairs exited with 0;
+   - on Ok EVERY parent was started (started is a permutation of the parent list), process_dict
+     is empty and every parent with leaf pairs exited with 0; completed_parents is duplicate-free
+     and within the parent list -- but NOT all of it in general: the final
+     `while len(process_dict) > 0` loop pops workers without recording them (c14_example_final_drain);
    - a raise names a parent of the list that has leaf pairs, with its non-zero code;
    - if some parent with leaf pairs has a non-zero code the verdict is a raise. *)
 Theorem c14_selection_scheduler : forall (W : world) (n : nat) (behemoths smaller leafless : list nat),
@@ -159,7 +201,8 @@ Theorem c14_selection_scheduler : forall (W : world) (n : nat) (behemoths smalle
   let r := run_selection_pool W n behemoths smaller leafless in
   fst r <> PHang /\
   (fst r = POk ->
-     Permutation (ss_started (snd r)) parents /\ Permutation (ss_completed (snd r)) parents /\
+     Permutation (ss_started (snd r)) parents /\
+     (NoDup (ss_completed (snd r)) /\ forall p, In p (ss_completed (snd r)) -> In p parents) /\
      ss_running (snd r) = [] /\
      forall p, In p parents -> mem p leafless = false -> code W p = 0%Z) /\
   (forall w c, fst r = PRaised w c ->
@@ -175,7 +218,8 @@ Theorem c14_selection_scheduler_partition : forall (W : world) (n k : nat) (behe
   let r := run_selection_pool W n behemoths smaller leafless in
   fst r <> PHang /\
   (fst r = POk ->
-     Permutation (ss_started (snd r)) (seq 0 k) /\ Permutation (ss_completed (snd r)) (seq 0 k) /\
+     Permutation (ss_started (snd r)) (seq 0 k) /\
+     (NoDup (ss_completed (snd r)) /\ forall p, In p (ss_completed (snd r)) -> (p < k)%nat) /\
      ss_running (snd r) = [] /\
      forall p, (p < k)%nat -> mem p leafless = false -> code W p = 0%Z) /\
   (forall w c, fst r = PRaised w c ->
@@ -187,10 +231,11 @@ Print Assumptions c14_selection_scheduler_partition.
 
 (* what the scheduler is there to enforce, at every state the loop can hand back (stop the
    outer loop after any number `outer` of iterations, starve the inner loops with any
-   `fuel`): at most n processes, and at most one behemoth among them *)
-Theorem c14_selection_limits : forall (W : world) (n : nat) (behemoths smaller leafless : list nat) (outer fuel : nat),
+   `fuel` and the final drain with any `dfuel`): at most n processes, and at most one behemoth
+   among them *)
+Theorem c14_selection_limits : forall (W : world) (n : nat) (behemoths smaller leafless : list nat) (outer fuel dfuel : nat),
   (1 <= n)%nat -> NoDup (behemoths ++ smaller) ->
-  let s := snd (sel_loop outer fuel W n (length behemoths + length smaller) behemoths smaller leafless sel_init) in
+  let s := snd (sel_loop outer fuel dfuel W n (length behemoths + length smaller) behemoths smaller leafless sel_init) in
   (length (ss_running s) <= n)%nat /\
   (forall b1 b2, In b1 behemoths -> In b2 behemoths ->
      In b1 (map fst (ss_running s)) -> In b2 (map fst (ss_running s)) -> b1 = b2).
@@ -205,10 +250,18 @@ Theorem c14_selection_duplicate_parent_refuted :
 Proof. exact duplicate_parent_hangs. Qed.
 Print Assumptions c14_selection_duplicate_parent_refuted.
 
-(* a failed run (model shape) satisfies the clauses of the property itself *)
-Theorem c14_failed_trace_has_property : forall c tr raised,
-  failed_trace_ok c tr raised = true -> prop_trace_ok c tr raised = true.
-Proof. exact failed_implies_prop. Qed.
+(* wherever _run_mapping raises, the effect trace of the MODEL satisfies prop_trace_ok -- the
+   executable statement of the property's own clauses (raises; no success message; log file written
+   after the traceback was added; JSON / HDF5 hold only what the finally block adds), the predicate
+   the harness evaluates on the effects OBSERVED on the real run_mapping.  A finite check of the
+   transcription in Model/RunEffects.v (256 configurations x 6 fail points).
+   (Until the audit this name stood for `failed_trace_ok c tr r = true -> prop_trace_ok c tr r = true`,
+   which is a projection: failed_trace_ok is DEFINED as prop_trace_ok && ...; that remains as
+   Proofs/RunEffectsP.v failed_implies_prop, labelled as what it is.) *)
+Theorem c14_failed_trace_has_property : forall c fail,
+  snd (inner c fail) = None ->
+  prop_trace_ok c (fst (run_mapping c fail)) (snd (run_mapping c fail)) = true.
+Proof. exact failed_run_has_property. Qed.
 Print Assumptions c14_failed_trace_has_property.
 
 (* ---- the hypotheses are satisfiable, the conclusions are not vacuous *)
@@ -258,6 +311,7 @@ Example c14_example_scheduler :
   let r := run_selection_pool W 2 [0; 3] [1; 2; 4] [4]%nat in
   NoDup ([0; 3] ++ [1; 2; 4])%nat /\ Permutation ([0; 3] ++ [1; 2; 4])%nat (seq 0 5) /\
   fst r = POk /\ ss_started (snd r) = [0; 1; 2; 3; 4]%nat /\ ss_completed (snd r) = [1; 0; 2; 3; 4]%nat /\
+  ss_running (snd r) = [] /\
   fst (run_selection_pool {| code := fun w => if Nat.eqb w 3 then 1%Z else 0%Z; dur := fun w => (9 - 2 * w)%nat |}
                           2 [0; 3] [1; 2; 4] [4])%nat = PRaised 3 1.
 Proof.
@@ -266,3 +320,17 @@ Proof.
   - cbn. apply perm_skip. apply (Permutation_cons_app [1; 2]%nat [4]%nat 3%nat). reflexivity.
   - vm_compute. repeat split; reflexivity.
 Qed.
+
+(* the final drain pops without recording: one parent, still running when the outer loop ends *)
+Example c14_example_final_drain :
+  let W := {| code := fun _ => 0%Z; dur := fun _ => 3%nat |} in
+  let r := run_selection_pool W 2 [] [0%nat] [] in
+  fst r = POk /\ ss_started (snd r) = [0%nat] /\ ss_completed (snd r) = [] /\ ss_running (snd r) = [].
+Proof. exact final_drain_does_not_complete. Qed.
+
+(* the excluded input of c14_abnormal_codes is exactly where the parent sees nothing: a pool whose
+   only worker calls os._exit(256) drains cleanly; with os._exit(255) it raises *)
+Example c14_example_exit_256 :
+  fst (run_pool_list {| code := fun _ => exit_code_of (Exits 256); dur := fun _ => 1%nat |} 1 1) = POk /\
+  fst (run_pool_list {| code := fun _ => exit_code_of (Exits 255); dur := fun _ => 1%nat |} 1 1) = PRaised 0 255.
+Proof. vm_compute. split; reflexivity. Qed.
